@@ -6,6 +6,7 @@ import (
 	"net"
 	"os"
 	"sync"
+	"sync/atomic"
 	"syscall"
 	"time"
 	"unsafe"
@@ -19,7 +20,7 @@ import (
 type Peer struct {
 	Local  *net.UDPAddr
 	Remote *net.UDPAddr
-	c      *net.UDPConn
+	c      atomic.Pointer[net.UDPConn]
 	probeN uint32
 	// stale holds sequence numbers of probes that were never answered while their Probe
 	// call was waiting; a late answer to one of them is not a reaction to a later datagram.
@@ -66,9 +67,10 @@ func NewPeer(local, remote string) (*Peer, error) {
 	if err != nil {
 		return nil, err
 	}
-	p := &Peer{Local: c.LocalAddr().(*net.UDPAddr), Remote: ra, c: c, RecoveryTS: time.Unix(1700000000, 0),
+	p := &Peer{Local: c.LocalAddr().(*net.UDPAddr), Remote: ra, RecoveryTS: time.Unix(1700000000, 0),
 		in: make(chan Dgram, 4096), closed: make(chan struct{})}
-	go p.reader()
+	p.c.Store(c)
+	go p.reader(c)
 	return p, nil
 }
 
@@ -97,7 +99,7 @@ func listenPeerSocket(local string) (*net.UDPConn, error) {
 
 // Vanish closes the peer's socket while keeping the Peer: the peer process died but its host is reachable, so
 // the agent's next datagram to it is refused (ICMP port unreachable -> ECONNREFUSED on the agent's socket).
-func (p *Peer) Vanish() { p.c.Close() }
+func (p *Peer) Vanish() { p.c.Load().Close() }
 
 // Reappear binds the address and port the peer had before it vanished.
 func (p *Peer) Reappear() error {
@@ -105,11 +107,11 @@ func (p *Peer) Reappear() error {
 	if err != nil {
 		return err
 	}
-	p.c = c
+	p.c.Store(c)
 	if os.Getenv("VERIF_DEBUG_PEER") != "" {
 		fmt.Fprintf(os.Stderr, "PEER reappear %v -> %v\n", c.LocalAddr(), p.Remote)
 	}
-	go p.reader()
+	go p.reader(c)
 	return nil
 }
 
@@ -119,15 +121,15 @@ func (p *Peer) Close() {
 	default:
 		close(p.closed)
 	}
-	p.c.Close()
+	p.c.Load().Close()
 }
 
 // reader demultiplexes: Heartbeat Requests of the agent are recorded and answered according to
 // OnHB in the background (so that an idle harness never looks like a dead peer); everything
 // else is queued for Recv.
-func (p *Peer) reader() {
+func (p *Peer) reader(c *net.UDPConn) {
 	for {
-		d, err := p.readOne()
+		d, err := readOne(c)
 		if err != nil {
 			select {
 			case <-p.closed:
@@ -191,16 +193,16 @@ func (p *Peer) HBSeen() []HBReq {
 
 // SendRaw sends bytes to the agent.
 func (p *Peer) SendRaw(b []byte) error {
-	_, err := p.c.WriteToUDP(b, p.Remote)
+	_, err := p.c.Load().WriteToUDP(b, p.Remote)
 	if err != nil && os.Getenv("VERIF_DEBUG_PEER") != "" {
-		fmt.Fprintf(os.Stderr, "PEER send error %v: %v\n", p.c.LocalAddr(), err)
+		fmt.Fprintf(os.Stderr, "PEER send error %v: %v\n", p.c.Load().LocalAddr(), err)
 	}
 	return err
 }
 
 // SendRawTo sends bytes to an arbitrary destination.
 func (p *Peer) SendRawTo(b []byte, to *net.UDPAddr) error {
-	_, err := p.c.WriteToUDP(b, to)
+	_, err := p.c.Load().WriteToUDP(b, to)
 	return err
 }
 
@@ -238,10 +240,10 @@ func (p *Peer) Recv(d time.Duration) (Dgram, error) {
 	}
 }
 
-func (p *Peer) readOne() (Dgram, error) {
+func readOne(c *net.UDPConn) (Dgram, error) {
 	buf := make([]byte, 65536)
 	oob := make([]byte, 256)
-	n, oobn, _, _, err := p.c.ReadMsgUDP(buf, oob)
+	n, oobn, _, _, err := c.ReadMsgUDP(buf, oob)
 	if err != nil {
 		return Dgram{}, err
 	}
